@@ -85,6 +85,10 @@ def check(ck):
         c07._nothing_runs(ck, repo)
         _operation_selection(ck, repo)
         _abort(ck, repo)
+        # operations are indexed by name: a document with several anonymous operations must have been refused before
+        from . import c06
+        from ..validation import Wiring
+        c06.lone_anonymous_table(ck, repo, Wiring(repo))
     with ck.rule("R5"):
         cv = repo.func("tartiflette/types/exceptions/tartiflette.py", "TartifletteError.coerce_value")
         d = [n for n in walk_no_nested(cv.node) if isinstance(n, ast.Dict)]
@@ -104,6 +108,9 @@ def check(ck):
         lp = [l for l in fvv.loops() if isinstance(l, ast.For)]
         ck.ob("error record: locations come from the attached locations, else from the error's own", len(lp) == 1 and unparse(lp[0].iter) == "locations or self.locations", cv,
               lp[0] if lp else cv.node, construct="record:locations-source")
+        # `path` is the list of keys / indices (a Path object is not serialisable): what handle_field_error hands to located_error
+        from . import c02
+        c02.r1(ck, repo)
         loc = repo.func("tartiflette/language/ast/location.py", "Location.collect_value")
         r = FuncView(loc).returns()
         ok = len(r) == 1 and isinstance(r[0].value, ast.Dict) and {unparse(k): unparse(v) for k, v in zip(r[0].value.keys, r[0].value.values)} == {"'line'": "self.line", "'column'": "self.column"}
